@@ -1,10 +1,22 @@
-// harness binary of group "csv" (stub: replaced by the group's modes)
+// harness binary of group "csv": C11 (CSV field codecs, write/read round trip)
+// and C10 (summary round trip)
 #[path = "hcommon.rs"]
 mod hcommon;
+mod c10_mode;
+mod c11_mode;
+#[allow(dead_code)]
+mod core_mode;
 #[allow(dead_code)]
 mod util;
 pub use hcommon::guarded;
 
 fn main() {
-    hcommon::run_main(&[]);
+    hcommon::run_main(&[
+        ("dec_show", c11_mode::dec_show),
+        ("field_parse", c11_mode::field_parse),
+        ("aff_seq", c11_mode::aff_seq),
+        ("roundtrip", c11_mode::roundtrip),
+        ("read_csv", c11_mode::read_csv),
+        ("summary", c10_mode::handle),
+    ]);
 }
